@@ -575,6 +575,21 @@ static void case_main(int ord, vf_rng *r)
             b0[k] = sparse ? gen_sparse(r) : gen_val(r);
             b1[k] = sparse ? gen_sparse(r) : gen_val(r);
         }
+        if ((i % 16) == 7)
+        {
+            /* boundary data that is ALMOST what a lower-order motion (rest, constant velocity, constant acceleration) would have: consistent data with the end position
+               moved by a relative 2^-k, k = 6..52 - every scale between "clearly different" and "one rounding". Exactly consistent data (round numbers, grids) and
+               rounding-level deviations (1 +- ulps) bracket this band without entering it (seeded change C15-N: a "cruise segment" shortcut that zeroes the higher
+               coefficients when p1 - p0 is within sqrt(eps) of v0 ts, "to remove rounding noise at segment joints") */
+            int const m = (int)vf_below(r, 3), kk = (int)vf_range(r, 6, 52);
+            double const dl = ldexp(vf_sign(r), -kk), v = gen_val(r), a = t.nd > 2 ? gen_val(r) : 0;
+            for (int k = 0; k < t.nd; ++k) { b0[k] = b1[k] = 0; }
+            b0[0] = vf_chance(r, 1, 2) ? 0 : gen_val(r);
+            if (m == 0) { b1[0] = b0[0] + (b0[0] != 0 ? b0[0] * dl : dl); }
+            else if (m == 1 || t.nd <= 2) { b0[1] = b1[1] = v; b1[0] = b0[0] + v * ts * (1 + dl); }
+            else { b0[1] = v; b0[2] = b1[2] = a; b1[1] = v + a * ts; b1[0] = b0[0] + (v * ts + a * ts * ts / 2) * (1 + dl); }
+            VF_COUNT("data-almost-consistent-with-a-lower-order-motion");
+        }
         check_traj(&t, ts, b0, b1, sparse ? MODE_SPARSE : MODE_MAIN, r, i);
     }
     traj_del(&t);
